@@ -485,6 +485,16 @@ Fixpoint do_closures (atom : Z) (cl : list Z) (top : list kitem) (path : list ke
               end
   end.
 
+(* for next_atom in closures: if (atom, next_atom, 1, None) in stack[-1]: path.append(...); stack[-1].remove(...) *)
+Fixpoint soft_closures (atom : Z) (cl : list Z) (top : list kitem) (path : list kentry) : list kitem * list kentry :=
+  match cl with
+  | [] => (top, path)
+  | c :: r => match remove_kitem (atom, c, 1, None) top with
+              | None => soft_closures atom r top path
+              | Some top' => soft_closures atom r top' (path ++ [(c, atom, 1)])
+              end
+  end.
+
 (* the part of the loop body after the `if loop:` block *)
 Definition grow (top : list kitem) (rest : list (list kitem)) (path : list kentry) (atom bond : Z) (closures for_stack : list Z)
   : pyres (list (list kitem) * list kentry) :=
@@ -519,7 +529,12 @@ Definition grow (top : list kitem) (rest : list (list kitem)) (path : list kentr
         Ok ((top ++ [it n1 1 None; it n2 2 None]) :: (top ++ [it n2 1 None; it n1 2 (Some plen)])
             :: (top ++ [it n1 1 None; it n2 1 (Some plen)]) :: rest, path)
       else Ok ((top ++ [it n2 1 None; it n1 2 None]) :: (top ++ [it n1 1 None; it n2 2 (Some plen)]) :: rest, path)
-  | [] => if nonempty closures && negb (inpyr atom) then backtrack rest path else Ok (top :: rest, path)
+  | [] => match closures with
+          | [] => Ok (top :: rest, path)
+          | _ => if inpyr atom then                       (* closures of a pyrrole-like atom: consume the pending fork items *)
+                   let '(top1, path1) := soft_closures atom closures top path in Ok (top1 :: rest, path1)
+                 else backtrack rest path
+          end
   | _ => Err ValueError                                   (* next_atom1, next_atom2 = for_stack *)
   end.
 
@@ -620,3 +635,42 @@ Definition kekule_component (rings : adjl) (db : list Z) (db_start : Z) (pyr : l
                 end
       end
   end.
+
+(* ------------------------------------------------------------------------------------------------
+   9. what a SOUND form of the search is (specification; the check evaluates it on every form the real generator yields):
+      a perfect matching of exactly the skeleton atoms that need a double bond
+   ------------------------------------------------------------------------------------------------ *)
+Definition bond_key (a b : Z) : Z * Z := if a <=? b then (a, b) else (b, a).
+Definition zpair_eqb (x y : Z * Z) : bool := (fst x =? fst y) && (snd x =? snd y).
+(* every undirected skeleton bond once (for a symmetric adjacency) *)
+Definition skeleton_bonds (rings : adjl) : list (Z * Z) :=
+  flat_map (fun nl => map (fun m => (fst nl, m)) (filter (fun m => fst nl <? m) (snd nl))) rings.
+Definition form_bonds (y : list kentry) : list (Z * Z) := map (fun e => let '(a, p, _) := e in bond_key a p) y.
+Definition doubles_at (n : Z) (y : list kentry) : Z :=
+  countb (fun e => let '(a, p, o) := e in (o =? 2) && ((a =? n) || (p =? n))) y.
+Definition form_sound (rings : adjl) (db pyr : list Z) (y : list kentry) : bool :=
+  forallb (fun k => countb (zpair_eqb k) (form_bonds y) =? 1) (skeleton_bonds rings) &&      (* every skeleton bond exactly once *)
+  forallb (fun k => existsb (zpair_eqb k) (skeleton_bonds rings)) (form_bonds y) &&         (* nothing else *)
+  forallb (fun e => let '(_, _, o) := e in (o =? 1) || (o =? 2)) y &&
+  forallb (fun nl => let d := doubles_at (fst nl) y in
+                     if zmem (fst nl) db then d =? 0                                         (* double_bonded: no ring double bond *)
+                     else if zmem (fst nl) pyr then d <=? 1                                  (* pyrrole or pyridine *)
+                     else d =? 1) rings.                                                    (* plain ring atom: exactly one *)
+
+(* well-formed arguments, as __prepare_rings / __kekule_full produce them: simple symmetric graph, two or three skeleton
+   neighbours per atom, connected, the two sets inside the component and disjoint *)
+Fixpoint reach (rings : adjl) (fuel : nat) (seen : list Z) : list Z :=
+  match fuel with
+  | O => seen
+  | S f => reach rings f (fold_left (fun acc n => fold_left (fun acc' m => if zmem m acc' then acc' else acc' ++ [m]) (al_get rings n) acc) seen seen)
+  end.
+Definition rings_wf (rings : adjl) (db pyr : list Z) : bool :=
+  nodup_z (keys rings) &&
+  forallb (fun nl => nodup_z (snd nl) && negb (zmem (fst nl) (snd nl)) &&
+                     ((Z.of_nat (List.length (snd nl)) =? 2) || (Z.of_nat (List.length (snd nl)) =? 3)) &&
+                     forallb (fun m => zmem (fst nl) (al_get rings m)) (snd nl)) rings &&
+  match rings with
+  | [] => false
+  | nl :: _ => subset_z (keys rings) (reach rings (List.length rings) [fst nl])
+  end &&
+  nodup_z db && nodup_z pyr && subset_z db (keys rings) && subset_z pyr (keys rings) && forallb (fun n => negb (zmem n db)) pyr.
